@@ -346,6 +346,30 @@ pub fn glue_sum(inc: &GlueVal, old: &GlueVal) -> GlueVal {
     q
 }
 
+/// What TeX's scanner makes of the text `print_scaled(v)` followed by `pt` (or `fil…` when `fil`):
+/// §448 scan_dimen applied to §103's output. Returns the value and whether "Dimension too large"
+/// is reported. For |v| <= max_dimen this is the identity without error (Knuth's guarantee, §103).
+pub fn rescan_printed_dimen(v: i64, fil: bool) -> Scanned {
+    let text = print_scaled(v);
+    let (negative, body) = match text.strip_prefix('-') {
+        Some(b) => (true, b),
+        None => (false, text.as_str()),
+    };
+    let mut it = body.split('.');
+    let int_digits: Vec<u8> = it.next().unwrap().bytes().map(|b| b - b'0').collect();
+    let frac_digits: Vec<u8> = it.next().unwrap().bytes().map(|b| b - b'0').collect();
+    let (int_value, int_too_big) = scan_digits(&int_digits, 10);
+    let parts = DimenParts { negative, int_value, int_too_big, frac_digits };
+    finish_dimen(&parts, if fil { UnitKind::Fil } else { UnitKind::Unit(Unit::Pt) }, 0, 0)
+}
+
+/// What §440 scan_int makes of the decimal text of `v` (as printed by print_int): (value, too big).
+pub fn rescan_printed_int(v: i64) -> (i64, bool) {
+    let digits: Vec<u8> = format!("{}", v.abs()).bytes().map(|b| b - b'0').collect();
+    let (val, big) = scan_digits(&digits, 10);
+    (if v < 0 { wrap32(-val) } else { val }, big)
+}
+
 #[cfg(test)]
 mod tests {
     use super::*;
@@ -356,5 +380,11 @@ mod tests {
         assert_eq!(print_scaled(-32768), "-0.5");
         assert_eq!(print_scaled(MAX_DIMEN), "16383.99998");
         assert_eq!(round_decimals(&[5]), 32768);
+        for v in [0i64, 1, -1, 65536, -32768, MAX_DIMEN, -MAX_DIMEN, 123456789] {
+            assert_eq!(rescan_printed_dimen(v, false), Scanned { value: v, errors: 0 });
+        }
+        assert_eq!(rescan_printed_dimen(1 << 30, false), Scanned { value: MAX_DIMEN, errors: 1 });
+        assert_eq!(rescan_printed_int(-(1 << 31)), (-INFINITY, true));
+        assert_eq!(rescan_printed_int(-INFINITY), (-INFINITY, false));
     }
 }
